@@ -284,6 +284,32 @@ func derivedFrom(t *ref.T, h uint64) (tensor.Tensor, error) {
 			return nil, err
 		}
 		return id.MatMul(src)
+	case 1: // the product with an all-ones comparison MASK taken over a back-propagated tensor (s >= s after s was spent): a comparison
+		// result is a fresh untracked tensor whatever its operands went through, and 1 * v is v
+		s, err := tensor.Full(ref.CopyInts(t.Shape), 0.5, Conf(true))
+		if err != nil {
+			return nil, err
+		}
+		if err := tensor.BackPropagate(s.Scale(2)); err != nil {
+			return nil, err
+		}
+		var mask tensor.Tensor
+		switch (h >> 44) % 3 {
+		case 0:
+			mask, err = s.Ge(s)
+		case 1:
+			mask, err = s.Eq(s)
+		default:
+			mask, err = s.Le(s)
+		}
+		if err != nil {
+			return nil, err
+		}
+		src, err := directLeaf(t, false)
+		if err != nil {
+			return nil, err
+		}
+		return mask.Mul(src)
 	case 2: // an untracked tensor on which BackPropagate was already called (it changes nothing: "from an untracked root it changes nothing")
 		src, err := directLeaf(t, false)
 		if err != nil {
@@ -412,6 +438,9 @@ func directLeaf(t *ref.T, tracked bool) (x tensor.Tensor, err error) {
 	r.ResetGradContext(tracked)
 	return r, nil
 }
+
+// Direct builds the tensor with one TensorOf call (no provenance): for workloads that need one allocation pattern per step.
+func Direct(t *ref.T, tracked bool) (tensor.Tensor, error) { return directLeaf(t, tracked) }
 
 func MustLeaf(t *ref.T, tracked bool) tensor.Tensor {
 	x, err := Leaf(t, tracked)
